@@ -128,6 +128,8 @@ def md_for(kind, axis, n):
         elif kind == 'mixednum':
             # a numeric category whose first value has the narrowest type
             d = {'score': [7, 6.5, 8.25, -0.75][i % 4], 'flag': [True, 3, 0, 2.5][i % 4]}
+        elif kind == 'casevariant':   # category names that differ from the reserved hierarchical ones in case only
+            d = {'TAXONOMY': 'text%d' % i, 'Collapsed_IDs': i + 1, 'kegg_pathways': ['x', ''][i % 2]}
         elif kind == 'textws':       # text whose first / last character is white space (not in MD_KINDS, see 'edgews')
             d = {'label': ['val ', ' val', 'v\u3000', 'x \x1f'][i % 4], 'taxonomy': ['k__A ', ' p__B%d' % i]}
         elif kind == 'taxonomy_gap':     # a hierarchical list with an empty level (not in MD_KINDS: C01 excludes it)
